@@ -120,6 +120,7 @@ fn cell_centre(c: &C) -> (f64, f64) {
 
 /// one cone query, everything C05 / C06 / C16(b) say about it
 pub fn cone_event(rng: &mut Rng, depth: u8, dd: u8, lon: f64, lat: f64, r: f64, class: &str) -> Option<Value> {
+  crate::prime::cone(depth, dd, lon, lat, r);
   let res = guarded(|| if dd == 0 { nested::cone_coverage_approx(depth, lon, lat, r) } else { nested::cone_coverage_approx_custom(depth, dd, lon, lat, r) });
   // attribution fields (used only to match known findings): centre on a polar-cap seam meridian; radius within 3 %
   // below a starting-depth threshold
@@ -365,7 +366,7 @@ pub fn replay_lookup(line: &Value, out: &mut Out, stats: &mut crate::sc_nested::
   let (eq, above, below) = (line["eq"].as_i64().unwrap(), line["above"].as_i64().unwrap(), line["below"].as_i64().unwrap());
   let radii: Vec<f64> = if eq >= 0 { vec![t(eq)] }
     else if above >= 1 { vec![next_up(t(above)), 0.5 * (t(above) + t(above - 1)), next_down(t(above - 1)), t(above) * 1.001, t(above - 1) * 0.999] }
-    else if below == 1 { vec![next_down(t(29)), 0.5 * t(29), 0.0, 1e-300] }
+    else if below == 1 { vec![next_down(t(29)), 0.5 * t(29), 0.0, -0.0, f64::from_bits(1), 1e-300] } // -0.0 is a radius of zero
     else { vec![] };
   for r in radii {
     stats.calls += 1;
@@ -418,6 +419,7 @@ pub fn record_c16(rng: &mut Rng, count: u64, out: &mut Out) {
         // any position of the cell: centre or random offset
         let (fa, fc) = if rng.bool() { (0.5, 0.5) } else { (rng.range(0.01, 0.99), rng.range(0.01, 0.99)) };
         let (lon, lat) = ref_unproj_local(n as f64, c.b, c.i as f64 + fa, c.j as f64 + fc);
+        crate::prime::c2v(depth, lon, lat, 0.0);
         let b = guarded(|| cdshealpix::largest_center_to_vertex_distance(depth, lon, lat));
         // attribution fields: the cell straddles the transition latitude / lies in a polar cap
         let tl = 0.7297276562269663;
@@ -434,8 +436,10 @@ pub fn record_c16(rng: &mut Rng, count: u64, out: &mut Out) {
         let (lon, lat, class) = gen_position(rng);
         let lon = lon.rem_euclid(TWO_PI);
         let r = match rng.below(3) { 0 => cell_size(depth) * rng.range(0.2, 6.0), 1 => rng.range(0.0, 0.5), _ => 10f64.powf(rng.range(-6.0, 0.3)) }.min(3.0);
+        crate::prime::c2v(depth, lon, lat, r);
         let b1 = guarded(|| cdshealpix::largest_center_to_vertex_distance_with_radius(depth, lon, lat, r));
         let from = rng.below(depth as u64 + 1) as u8;
+        crate::prime::c2v(depth, lon, lat, r);
         let arr = guarded(|| cdshealpix::largest_center_to_vertex_distances_with_radius(from, depth + 1, lon, lat, r));
         // cells whose centre is within r: sampled (the position's own cell, and cells of points in the disc)
         let mut worst1 = -2_000_000_000i64;
@@ -496,6 +500,7 @@ fn worst_slack(cells: &[C], lon: f64, lat: f64, r: f64) -> i64 {
 }
 
 pub fn ellipse_event(rng: &mut Rng, depth: u8, dd: u8, lon: f64, lat: f64, a: f64, b: f64, pa: f64, class: &str) -> Option<Value> {
+  crate::prime::ellipse(depth, dd, lon, lat, a, b, pa);
   let res = guarded(|| if dd == 0 { nested::elliptical_cone_coverage(depth, lon, lat, a, b, pa) } else { nested::elliptical_cone_coverage_custom(depth, dd, lon, lat, a, b, pa) });
   if res.as_ref().map_or(false, |bm| bm.entries.len() > MAX_CELLS) { return None; }
   let n = 1u32 << depth;
@@ -537,9 +542,17 @@ pub fn record_c13(rng: &mut Rng, count: u64, out: &mut Out) {
       // a semi-major axis >= pi/2 is rejected by a panic
       let a = *rng.pick(&[HALF_PI, next_up(HALF_PI), 2.0, 3.0]);
       let depth = rng.below(6) as u8;
-      let p1 = guarded(|| nested::elliptical_cone_coverage(depth, 1.0, 0.5, a, 0.1, 0.3)).is_none();
-      let p2 = guarded(|| nested::elliptical_cone_coverage_custom(depth, 2, 1.0, 0.5, a, 0.1, 0.3)).is_none();
-      out.emit(json!({"ev": "ellipse_bad", "pp": p1 as u8, "pc": p2 as u8, "in": format!("a={:e}", a)}));
+      // whatever the other arguments: semi-minor axis small, equal to the semi-major axis (a circle) or in between, any centre,
+      // any position angle, through the free functions and the methods of the layer
+      let b = *rng.pick(&[0.1, a, a, 0.5 * a, next_down(a)]);
+      let (lon, lat) = if rng.bool() { (1.0, 0.5) } else { (rng.range(0.0, TWO_PI), rng.range(-1.0, 1.0f64).asin()) };
+      let pa = *rng.pick(&[0.3, 0.0, HALF_PI]);
+      let ddc = 1 + rng.below(2) as u8;
+      let p1 = guarded(|| nested::elliptical_cone_coverage(depth, lon, lat, a, b, pa)).is_none()
+        && guarded(|| nested::get_or_create(depth).elliptical_cone_coverage(lon, lat, a, b, pa)).is_none();
+      let p2 = guarded(|| nested::elliptical_cone_coverage_custom(depth, ddc, lon, lat, a, b, pa)).is_none()
+        && guarded(|| nested::get_or_create(depth).elliptical_cone_coverage_custom(ddc, lon, lat, a, b, pa)).is_none();
+      out.emit(json!({"ev": "ellipse_bad", "pp": p1 as u8, "pc": p2 as u8, "in": format!("{} a={:e} b={:e} pa={:e} dd={}", pos_str(lon, lat), a, b, pa, ddc)}));
       continue;
     }
     let (lon, lat, class) = if rng.below(3) == 0 { crate::sc_nested::gen_border_position(rng) } else { gen_position(rng) };
@@ -580,13 +593,18 @@ fn inside_convex(vs: &[(f64, f64)], c: (f64, f64), p: (f64, f64), margin: f64) -
     let nrm = cross(a, b);
     let nn = dot(nrm, nrm).sqrt();
     let (sp, sc) = (dot(nrm, pv) / nn, dot(nrm, cv) / nn);
-    if sp.abs() <= margin { return None; }
+    // the normal of a short edge is itself only known to ~4e-16 / (length of the edge): for edges below a micro-radian the
+    // rounding distance of the edge's great circle grows accordingly (it reaches the size of the polygon for edges of ~1e-8 rad,
+    // where neither this oracle nor any f64 cross-product test can tell the sides apart)
+    let margin = margin.max(4e-15 / nn);
+    if sp.abs() <= margin || sc.abs() <= margin { return None; }
     if (sp > 0.0) != (sc > 0.0) { inside = false; }
   }
   Some(inside)
 }
 
 pub fn polygon_event(rng: &mut Rng, depth: u8, exact: bool, centre: (f64, f64), radius: f64, vs: &[(f64, f64)], convex: bool, class: &str) -> Option<Value> {
+  crate::prime::polygon(depth, exact, vs, radius);
   let res = guarded(|| nested::polygon_coverage(depth, vs, exact));
   let pmsg = if res.is_none() { last_panic() } else { String::new() };
   if res.as_ref().map_or(false, |bm| bm.entries.len() > MAX_CELLS) { return None; }
@@ -612,6 +630,7 @@ pub fn polygon_event(rng: &mut Rng, depth: u8, exact: bool, centre: (f64, f64), 
   m.insert("full_bad".into(), json!(full_bad));
   // tightness with respect to the cone the polygon was built in (only claimed below 0.3 rad)
   m.insert("slack".into(), json!(if radius < 0.3 { cells.as_ref().map_or(-1, |cs| worst_slack(cs, centre.0, centre.1, radius)) } else { -1 }));
+  m.insert("r9".into(), json!((radius * 1e9).min(2e9) as i64)); // radius of the reference cone in units of 1e-9 rad (attribution of findings only)
   // the public point-in-polygon predicate agrees with the geometric definition (convex, fits in 0.3 rad)
   let mut contains_bad = 0;
   let mut contains_n = 0;
@@ -692,7 +711,9 @@ pub fn record_c12(rng: &mut Rng, count: u64, out: &mut Out) {
   while out.n < count {
     // centre anywhere short of the poles, incl. lon = 0 crossing and base-cell seams
     let (lon, lat, class) = match rng.below(4) { 0 => (rng.range(-0.05, 0.05f64).rem_euclid(TWO_PI), rng.range(-1.0, 1.0), "lon0"), 1 => crate::sc_nested::gen_border_position(rng), _ => gen_position(rng) };
-    let radius = match rng.below(4) { 0 => rng.range(0.3, 0.78), 1 => rng.range(0.05, 0.29), _ => 10f64.powf(rng.range(-7.0, -0.55)) };
+    // (one polygon in ten spans only a few cells of the deepest depths, 1.5e-9 .. 1e-7 rad: chords and cosines of such sizes are at
+    // the limit of what f64 resolves)
+    let radius = match rng.below(10) { 0 | 1 => rng.range(0.3, 0.78), 2 | 3 => rng.range(0.05, 0.29), 4 => 10f64.powf(rng.range(-8.8, -7.0)), _ => 10f64.powf(rng.range(-7.0, -0.55)) };
     let lat = lat.max(-(HALF_PI - radius - 0.12)).min(HALF_PI - radius - 0.12);
     let lon = lon.rem_euclid(TWO_PI);
     let nv = 3 + rng.below(6) as usize;
